@@ -4,7 +4,7 @@ from /repo) on symbolic columns and printing the recorded expression. `fwd` is `
 set_option linter.unusedVariables false
 namespace Gen.C08
 
-def clipTraced : Bool := false
+def clipTraced : Bool := true
 def clipStart (start stop size : Int) : Int := (max (0 : Int) start)
 def clipStop (start stop size : Int) : Int := (min size stop)
 def geoClipTraced : Bool := true
